@@ -58,8 +58,9 @@ def t_wal(ctx):
         return e.pick() if is_sym(e) else e
 
     class FakeFile:
-        def __init__(self, path):
+        def __init__(self, path, encoding=None):
             self.path = str(path)
+            self.encoding = encoding
 
         async def __aenter__(self):
             return self
@@ -70,6 +71,9 @@ def t_wal(ctx):
         async def write(self, s):
             if io_d is not None:
                 await asyncio.sleep(io_d)
+            if ctx.cfg.get('ascii_platform'):
+                # a platform whose default text encoding is ASCII (LC_ALL=C, legacy code pages): only what the code asked for counts
+                s.encode(self.encoding or 'ascii')
             o = choice('write')
             ctx.rec('WAL_WRITE', bus=bus_of_path.get(self.path), outcome=o, text=s)
             if o == 'fail':
@@ -85,7 +89,7 @@ def t_wal(ctx):
             raise OSError('injected open failure')
         if o == 'fail_other':
             raise RuntimeError('injected non-OSError open failure')
-        return FakeFile(path)
+        return FakeFile(path, kw.get('encoding'))
 
     saved = svc.anyio.open_file
     svc.anyio.open_file = fake_open
@@ -349,6 +353,7 @@ def jobs(tier):
         Job('C17', 's1.wal', t_wal, dict(topo='parallel', faults=False), witnesses=('payload round-trip',)),
         Job('C17', 's1.wal', t_wal, dict(topo='nested', faults=False, unserialisable=True), witnesses=('payload round-trip',)),
         Job('C17', 's1.wal', t_wal, dict(topo='nested', faults=False, teardown=True), witnesses=('complete at teardown',)),
+        Job('C17', 's1.wal', t_wal, dict(topo='nested', faults=False, ascii_platform=True), witnesses=('payload round-trip',)),
         Job('C17', 's1.wal', t_wal, dict(topo='parallel', faults=False, teardown=True), witnesses=('complete at teardown',)),
     ]
     out.append(Job('C17', 's1.wal_fs', t_wal_fs, {}, witnesses=('line written', 'mkdir failed')))
